@@ -188,7 +188,7 @@ def render_body(node):
 
 def render_enum(node):
     kw = "flag" if node["flag"] else "enum"
-    base = f" : {node['base']}" if node.get("show_base", True) else ""
+    base = f" : {node.get('base_as') or node['base']}" if node.get("show_base", True) else ""
     nm = f" {node['name']}" if node["name"] else ""
     return f"{kw}{nm}{base} {{ {', '.join(node['src'])} }};"
 
@@ -231,8 +231,14 @@ DEFAULT_OPTS = dict(
     enums=True, nested=True, unions=True, dyn_unions=False, ptrs=True, dyn=True, eof=True, floats=True,
     wide=True, wchar=True, leb=True, void=False, multidim=True, aliases=True, consts=True,
     fixed_only=False, null_struct=True, anon=True, named_structs=True, self_ptr=False,
-    expr_rich=False, bias=None,
+    expr_rich=False, bias=None, name_prefix=None,
 )
+
+# identifiers that begin like a keyword, a built-in type, a literal prefix or an integer suffix: a scanner that
+# matches keywords without a proper word boundary splits them
+TRICKY_PREFIXES = ["struct_", "union_", "typedef_", "enum_", "flag_", "sizeof_", "unsigned_", "signed_", "define_",
+                   "EOF_", "u", "ul", "_struct", "x0x", "b0b", "include_", "char_", "void_", "long_", "int_", "uint8_",
+                   "const_", "structx", "enumx", "NULL_", "ifdef_"]
 
 
 class Gen:
@@ -241,6 +247,9 @@ class Gen:
         self.o = dict(DEFAULT_OPTS)
         self.o.update(opts)
         self.n = 0
+        self.prefix = self.o["name_prefix"]
+        if self.prefix is None:
+            self.prefix = rng.choice(TRICKY_PREFIXES) if rng.random() < 0.1 else ""
         self.decls = []
         self.enums = []
         self.named = []  # named static/dynamic structs declared at top level
@@ -250,7 +259,7 @@ class Gen:
     # -- helpers
     def nm(self, p="f"):
         self.n += 1
-        return f"{p}{self.n}"
+        return f"{self.prefix}{p}{self.n}"
 
     def chance(self, p):
         return self.r.random() < p
@@ -344,6 +353,12 @@ class Gen:
         node = {"k": "enum", "name": name, "flag": flag, "base": base, "members": members, "src": src}
         if base == "uint32" and self.chance(0.3):
             node["show_base"] = False
+        elif self.o["aliases"] and self.chance(0.25):
+            # the underlying type under another (possibly multi-word) spelling
+            spell = [a for a, c in INT_ALIASES.items() if c == base]
+            if spell:
+                node["base_as"] = self.r.choice(spell)
+                self.feat("enum:base-alias" + (":multi-word" if " " in node["base_as"] else ""))
         self.decls.append({"d": "enum", "node": node})
         self.enums.append(node)
         self.feat("flag" if flag else "enum")
@@ -620,6 +635,8 @@ class Gen:
         top = self.struct(0, top=True, name="T")
         top["decl"] = top_decl or r.choice(["top", "top", "typedef", "typedef2"])
         self.decls.append({"d": "struct", "node": top})
+        if self.prefix:
+            self.feat("names:keyword-like-prefix")
         return finish_case(self.decls, top, self.consts, self.feats)
 
 
